@@ -19,12 +19,12 @@ def jobs(tier):
         D = ['MODE%d=%d' % (i, m) for i, m in enumerate(modes)] + list(extra)
         if 'USE_RWLOCK' in extra: J.append(kjob(name, SRC, nt, slices, D, desc=name, unwind=3, **kw))
         else: J.append(ksjob(name, SRC, nt, slices, D, desc=name, unwind=3, **kw))
-    mk('qrw_W_R', 2, 6, [W, R], timeout=900, mem_gb=16)
-    mk('qrw_R_W', 2, 6, [R, W], timeout=900, mem_gb=16)
-    mk('qrw_sym2', 2, 6, [S, S], timeout=1200, mem_gb=20)
+    mk('qrw_W_R', 2, 6, [W, R], timeout=900, mem_gb=4)
+    mk('qrw_R_W', 2, 6, [R, W], timeout=900, mem_gb=4)
+    mk('qrw_sym2', 2, 6, [S, S], timeout=1200, mem_gb=4)
     if not q: mk('qrw_W_R_Wt_R', 4, 10, [W, R, W, R], timeout=4000, mem_gb=12)
     if not q:
-        mk('qrw_sym3', 3, 8, [S, S, S], timeout=6000, mem_gb=44)
+        mk('qrw_sym3', 3, 8, [S, S, S], timeout=6000, mem_gb=8)
     mk('qrw_W_R_mv', 2, 8, [W, R], timeout=900, mem_gb=10, preempt=True)     # lockers on different vCPUs: pre-emption before every atomic operation of qrwlock
     mk('rw_W_R', 2, 6, [W, R], extra=['USE_RWLOCK'], timeout=900, mem_gb=10)
     mk('rw_R_W', 2, 6, [R, W], extra=['USE_RWLOCK'], timeout=900, mem_gb=10)
